@@ -39,6 +39,7 @@ type scheme struct {
 	parse   func(s string) (item, string)       // item + canonical parse answer
 	cmp     func(a, b item) int                 // real comparison (both ok)
 	class   func(law string, t [3]item) string  // known-finding class of a failed law, or ""
+	spec    func(a, b item) (int, bool)         // the scheme's order stated independently of the code's normal form, where applicable
 }
 
 var schemes = []*scheme{
@@ -53,6 +54,7 @@ var schemes = []*scheme{
 			x, y := a.val.(pepV).v, b.val.(pepV).v
 			return x.Compare(&y)
 		},
+		spec: func(a, b item) (int, bool) { return pepSpecCmp(a.val.(pepV).v, b.val.(pepV).v) },
 	},
 	{
 		name: "gem", parseOp: "gem", cmpOp: "gemcmp",
@@ -142,6 +144,21 @@ func triple(r *hx.Run, sc *scheme, strs [3]string) {
 				r.Count(fmt.Sprintf("%s:cmp:%s", sc.name, cmpStr(m[i][j])))
 			}
 		}
+	}
+	if sc.spec != nil && allok {
+		for i := 0; i < 3; i++ {
+			for j := 0; j < 3; j++ {
+				if want, ok := sc.spec(t[i], t[j]); ok && i != j && m[i][j] != 99 {
+					r.Count(sc.name + ":spec-order:checked")
+					if want != m[i][j] {
+						r.Fail("", fmt.Sprintf("%s order %s %s compare=%d, the scheme's rules say %d", sc.name, q(strs[i]), q(strs[j]), m[i][j], want))
+					}
+				}
+			}
+		}
+	}
+	if sc.name == "gem" {
+		gemCanonical(r, strs[0])
 	}
 	if sc.name == "maven" && allok {
 		// the fragment of the transitivity theorem, as the harness classifies it,
@@ -403,6 +420,10 @@ func genericRun(r *hx.Run, rnd *hx.Rand, n int) {
 				if m[j][i] != -m[i][j] {
 					r.Fail("", fmt.Sprintf("generic antisymmetric %v %v cmp=%d,%d", vs[i], vs[j], m[i][j], m[j][i]))
 				}
+				// antisymmetry in the strict sense: equal exactly when kind and all slots coincide
+				if (m[i][j] == 0) != (vs[i] == vs[j]) {
+					r.Fail("", fmt.Sprintf("generic equal-iff-identical %v %v cmp=%d", vs[i], vs[j], m[i][j]))
+				}
 			}
 		}
 		for _, p := range [][3]int{{0, 1, 2}, {0, 2, 1}, {1, 0, 2}, {1, 2, 0}, {2, 0, 1}, {2, 1, 0}} {
@@ -582,6 +603,56 @@ func pepRanges(r *hx.Run, rnd *hx.Rand, n int) {
 		r.Count("pep440:specifier:" + strconv.FormatBool(want))
 		if out != strconv.FormatBool(want) {
 			r.Fail("", fmt.Sprintf("pep440 specifier spec=%s version=%s match=%s, the operators say %v", q(spec), q(vt), out, want))
+		}
+	}
+	// Range.AND: two conjunctions built from the same base are independent
+	// values (repaired: they shared the base's spare capacity), and each is
+	// the conjunction of its parts.
+	for i := 0; i < n/4 && !r.Stop(); i++ {
+		f := newFamily(rnd)
+		simple := func() string {
+			return strings.NewReplacer("!", "", "~", "", "=", "", "<", "", ">", "", ",", "").Replace(f.pep())
+		}
+		var parts []string
+		for k := 1 + rnd.Intn(4); k > 0; k-- { // 3 parts leave spare capacity behind
+			parts = append(parts, f.pick("==", "!=", "<=", ">=", "<", ">", "~=")+simple())
+		}
+		base := strings.Join(parts, ",")
+		x := f.pick("==", "!=", "<=", ">=", "<", ">") + simple()
+		y := f.pick("==", "!=", "<=", ">=", "<", ">") + simple()
+		vt := simple()
+		if rnd.Chance(1, 2) {
+			vt = f.mutate(strings.TrimLeft(x, "=!<>"), "pep440")
+		}
+		var detail string
+		out := hx.Guard(func() string {
+			rb, err1 := pep440.ParseRange(base)
+			rx, err2 := pep440.ParseRange(x)
+			ry, err3 := pep440.ParseRange(y)
+			if err1 != nil || err2 != nil || err3 != nil {
+				return "err"
+			}
+			pv, _ := pepParse(vt)
+			if !pv.ok {
+				return "verr"
+			}
+			r1 := rb.AND(rx)
+			s1 := r1.String()
+			r2 := rb.AND(ry)
+			mb, mx, my := rb.Match(&pv.v), rx.Match(&pv.v), ry.Match(&pv.v)
+			m1, m2 := r1.Match(&pv.v), r2.Match(&pv.v)
+			if s := r1.String(); s != s1 {
+				detail = fmt.Sprintf("base.AND(x) changed from %s to %s after base.AND(y)", q(s1), q(s))
+			} else if m1 != (mb && mx) || m2 != (mb && my) {
+				detail = fmt.Sprintf("base=%v x=%v y=%v base.AND(x)=%v base.AND(y)=%v", mb, mx, my, m1, m2)
+			}
+			return fmt.Sprintf("%v %v %v", mb, m1, m2)
+		})
+		r.Op("pepand "+hexs(base)+" "+hexs(x)+" "+hexs(y)+" "+hexs(vt), out, out != "err" && out != "verr")
+		r.Count("pep440:and:" + strings.Fields(out)[0])
+		r.Case("pep440 AND "+q(base)+" "+q(x)+" "+q(y)+" "+q(vt), out != "err" && out != "verr")
+		if detail != "" {
+			r.Fail("", fmt.Sprintf("pep440 Range.AND base=%s x=%s y=%s version=%s: %s", q(base), q(x), q(y), q(vt), detail))
 		}
 	}
 	// the repaired panic: "~=" with one release segment
